@@ -70,19 +70,30 @@ func (w *Writer) Run(in interface{}, fn func() (interface{}, error)) {
 		return
 	}
 	c := Case{ID: w.n, In: in}
-	func() {
-		defer func() {
-			if r := recover(); r != nil {
-				c.Panic = addrRe.ReplaceAllString(fmt.Sprintf("%v | %s", r, shortStack()), "0x?")
-				w.panics++
+	// The real luamanager gives every script a wall-clock budget of one second; on a loaded machine a run can exceed
+	// it, which is not a function of the input: such a run is repeated.
+	for try := 0; try < 6; try++ {
+		c = Case{ID: w.n, In: in}
+		func() {
+			defer func() {
+				if r := recover(); r != nil {
+					c.Panic = addrRe.ReplaceAllString(fmt.Sprintf("%v | %s", r, shortStack()), "0x?")
+				}
+			}()
+			out, err := fn()
+			c.Out = out
+			if err != nil {
+				c.Err = err.Error()
 			}
 		}()
-		out, err := fn()
-		c.Out = out
-		if err != nil {
-			c.Err = err.Error()
+		ob, _ := json.Marshal(c.Out)
+		if !strings.Contains(string(ob)+c.Err+c.Panic, "context deadline exceeded") {
+			break
 		}
-	}()
+	}
+	if c.Panic != "" {
+		w.panics++
+	}
 	if c.Out == nil {
 		c.Out = map[string]interface{}{}
 	}
